@@ -311,7 +311,7 @@ func vfE8ProbeSealReadWarns() int {
 		switch {
 		case !strings.Contains(txt, "PROBE unreadable=true"):
 			vfE8LSRWHow += ":not-injected"
-		case code == 1 && strings.Contains(txt, "PROBE log FATAL") && !strings.Contains(txt, "PROBE returned") && string(raw) == "ab\ncd":
+		case code == 1 && strings.Contains(txt, "PROBE log FATAL") && strings.Contains(txt, "unable to terminate the last line") && !strings.Contains(txt, "PROBE returned") && string(raw) == "ab\ncd":
 			vfE8LSRW = 0
 		case code == 0 && strings.Contains(txt, "PROBE log WARN") && strings.Contains(txt, "PROBE returned") && string(raw) == "ab\ncd":
 			vfE8LSRW = 1
